@@ -185,3 +185,127 @@ Example c07_example_premise :
             EvRefuse 0 (AExec ls false) 5; EvRefuse 0 (AExec [108] false) 50] 0
   = Some (alice, 7, ViaGrant [mkGrant 0 2 10 100 ls no_session; mkGrant 1 1 10 20 [] no_session]).
 Proof. vm_compute. reflexivity. Qed.
+
+(* ==========================================================================================
+   Concurrent exec requests of ONE grant session (Model/GrantRace.v, Proofs/GrantRaceProofs.v).
+   Every exec tube is served by its own goroutine; each runs checkCmd on the shared slice
+   sess.authorizedActions.  [locked = true] is the code after
+   `fix: hopserver: serialise grant matching so concurrent exec requests cannot share (or crash on)
+   one authorization grant`; [locked = false] is checkCmd as found.
+   All theorems: every number of grants, every number of requests, every schedule.
+   ========================================================================================== *)
+From Hop Require Import ConcBase GrantRace GrantRaceProofs.
+
+(* linearizability: whatever the scheduler does, the requests that have returned got exactly the
+   answers of the sequential check_cmd (the function every other C07 theorem is about) applied in
+   some order without repetition; when no request is inside checkCmd the slice holds exactly what
+   that sequential run leaves; no request ever panics *)
+Theorem c07_concurrent_linearizable : forall gs qs x, reachable true gs qs x ->
+  exists order, NoDup order /\
+    (forall i r, nth_error (pcs x) i = Some (PDone r) <-> In (i, r) (fst (seq_run qs gs order))) /\
+    (mu (shd x) = None -> remaining x = snd (seq_run qs gs order)) /\
+    panicked x = false.
+Proof. exact concurrent_linearizable. Qed.
+Print Assumptions c07_concurrent_linearizable.
+
+(* each grant authorizes a single action, also under concurrency: a request succeeds only under a
+   grant of the session that is live at its clock value and matches it (type, identical command);
+   two different requests never succeed under the same grant; a consumed grant is no longer in
+   the slice; no reachable state has a panicked request *)
+Theorem c07_concurrent_once : forall gs qs x, reachable true gs qs x -> NoDup (map g_id gs) ->
+  panicked x = false /\
+  (forall i g, In (i, g) (wins x) ->
+     In g gs /\ exists q, nth_error qs i = Some q /\ hit q g = true) /\
+  (forall i j g g', In (i, g) (wins x) -> In (j, g') (wins x) -> g_id g = g_id g' -> i = j) /\
+  (mu (shd x) = None -> forall i g, In (i, g) (wins x) -> ~ In (g_id g) (map g_id (remaining x))).
+Proof. exact concurrent_once. Qed.
+Print Assumptions c07_concurrent_once.
+
+(* the lock cannot wedge the session: while some request has not returned, some request can move *)
+Theorem c07_concurrent_no_deadlock : forall gs qs x, reachable true gs qs x -> all_done x = false ->
+  exists i, enabled true qs x i = true.
+Proof. exact concurrent_no_deadlock. Qed.
+Print Assumptions c07_concurrent_no_deadlock.
+
+(* ---- checkCmd as found (no lock): refuted.  One `ls` grant, two simultaneous `ls` requests. ---- *)
+Definition rc_g : grant := mkGrant 0 2 0 100 ls 100.
+Definition rc_h : grant := mkGrant 1 2 0 100 [105; 100] 101.     (* a second grant, for `id` *)
+Definition rc_q : req := mkReq ls false 50.
+(* both requests read the header and entry 0 and pass the bounds check of slices.Delete before
+   either stores the shortened slice: both are started under the one grant *)
+Definition rc_sched_share : list nat := [0;0;0;0;0; 1;1;1;1;1; 0;0;0; 1;1;1]%nat.
+(* request 0 completes its Delete first: the bounds check of request 1 fails (s[0:1:0]) *)
+Definition rc_sched_panic : list nat := [0;0;0;0; 1;1;1;1; 0;0;0;0; 1]%nat.
+(* two grants [ls; id]: both requests are started under the `ls` grant and the second Delete(0)
+   removes the `id` grant, which nobody used *)
+Definition rc_sched_lose : list nat := [0;0;0;0; 1;1;1;1; 0;0;0;0; 1;1;1;1]%nat.
+
+Theorem c07_concurrent_once_original_refuted :
+  (exists x, run false [rc_q; rc_q] (init [rc_g] [rc_q; rc_q]) rc_sched_share = Some x /\
+             In (0%nat, rc_g) (wins x) /\ In (1%nat, rc_g) (wins x)) /\
+  (exists x, run false [rc_q; rc_q] (init [rc_g] [rc_q; rc_q]) rc_sched_panic = Some x /\
+             panicked x = true) /\
+  (exists x, run false [rc_q; rc_q] (init [rc_g; rc_h] [rc_q; rc_q]) rc_sched_lose = Some x /\
+             In (0%nat, rc_g) (wins x) /\ In (1%nat, rc_g) (wins x) /\
+             all_done x = true /\ remaining x = []) /\
+  ~ (forall gs qs x, reachable false gs qs x -> NoDup (map g_id gs) ->
+       panicked x = false /\
+       (forall i j g g', In (i, g) (wins x) -> In (j, g') (wins x) -> g_id g = g_id g' -> i = j)).
+Proof.
+  split; [|split; [|split]].
+  - eexists. split; [vm_compute; reflexivity|]. vm_compute. auto.
+  - eexists. split; [vm_compute; reflexivity|]. vm_compute. reflexivity.
+  - eexists. split; [vm_compute; reflexivity|]. vm_compute. auto.
+  - intros H.
+    destruct (run false [rc_q; rc_q] (init [rc_g] [rc_q; rc_q]) rc_sched_share) as [x|] eqn:E;
+      [|vm_compute in E; discriminate].
+    assert (Hr : reachable false [rc_g] [rc_q; rc_q] x) by (exists rc_sched_share; exact E).
+    assert (Hnd : NoDup (map g_id [rc_g])) by (repeat constructor; intros []).
+    destruct (H _ _ _ Hr Hnd) as (_ & Hinj).
+    vm_compute in E. inversion E; subst x; clear E.
+    specialize (Hinj 0%nat 1%nat rc_g rc_g). cbv in Hinj.
+    assert (0 = 1)%nat by (apply Hinj; auto). discriminate.
+Qed.
+Print Assumptions c07_concurrent_once_original_refuted.
+
+(* the same three schedules are impossible with the lock: request 1 is blocked in Lock() *)
+Example c07_race_witnesses_blocked_now :
+  run true [rc_q; rc_q] (init [rc_g] [rc_q; rc_q]) rc_sched_share = None /\
+  run true [rc_q; rc_q] (init [rc_g] [rc_q; rc_q]) rc_sched_panic = None /\
+  run true [rc_q; rc_q] (init [rc_g; rc_h] [rc_q; rc_q]) rc_sched_lose = None.
+Proof. vm_compute. auto. Qed.
+
+(* non-vacuity: a locked run with three requests (two `ls`, one `id`) on [ls; id]; requests 1 and
+   2 acquire the lock before request 0: request 1 gets the `ls` grant, request 2 the `id` grant,
+   request 0 is refused, nothing is left *)
+Definition rc_q_id : req := mkReq [105; 100] false 50.
+Example c07_concurrent_example :
+  exists x, run true [rc_q; rc_q; rc_q_id] (init [rc_g; rc_h] [rc_q; rc_q; rc_q_id])
+                ([1;1;1;1;1;1;1;1] ++ [2;2;2;2;2;2;2;2] ++ [0;0;0;0])%nat = Some x /\
+            wins x = [(1%nat, rc_g); (2%nat, rc_h)] /\ all_done x = true /\ remaining x = [] /\
+            seq_run [rc_q; rc_q; rc_q_id] [rc_g; rc_h] [1;2;0]%nat
+              = ([(1%nat, Some rc_g); (2%nat, Some rc_h); (0%nat, None)], []).
+Proof. eexists. split; [vm_compute; reflexivity|]. vm_compute. auto. Qed.
+
+(* ---- expiry at login time (docs/C05.md: a key whose grants have all expired is still admitted
+   as the user).  Such a session is inert: every action a grant-admitted session starts at clock
+   value t has a grant, handed to it at login, whose window [start, exp) contains t.  So a session
+   all of whose grants are expired (or not yet effective) at t starts nothing at t. ---- *)
+Theorem c07_start_needs_grant_in_window : forall parse ops pre sid a t used post u k ags,
+    trace parse ops = pre ++ EvStart sid a t used :: post ->
+    login_of pre sid = Some (u, k, ViaGrant ags) ->
+    exists g, In g ags /\ (g_start g <= t < g_exp g)%Z.
+Proof. exact start_needs_grant_in_window. Qed.
+Print Assumptions c07_start_needs_grant_in_window.
+
+(* non-vacuity: a login with one grant [10,20) and requests at 20 and 30 (refused), 9 (refused), 19 (started) *)
+Example c07_expired_session_example :
+  trace no_parse [OSetFile alice FMissing; OEnable true; OAddGrant (Some (mkIntent 2 10 20 alice 7 ls));
+                  OLogin alice 7; OExec 0 ls false 20; OExec 0 ls false 30; OPF 0 30; OExec 0 ls false 9;
+                  OExec 0 ls false 19]
+  = [EvSetFile alice FMissing; EvEnable true; EvAdded (mkGrant 0 2 10 20 ls no_session) alice 7;
+     EvLogin 0 alice 7 (ViaGrant [mkGrant 0 2 10 20 ls no_session]);
+     EvRefuse 0 (AExec ls false) 20; EvRefuse 0 (AExec ls false) 30; EvRefuse 0 APF 30;
+     EvRefuse 0 (AExec ls false) 9;
+     EvStart 0 (AExec ls false) 19 (Some (mkGrant 0 2 10 20 ls no_session))].
+Proof. vm_compute. reflexivity. Qed.
